@@ -251,7 +251,7 @@ class Ctx:
             seed = self.derive('fuzz', target) % (2 ** 31 - 1) + 1
             cmd = [py, '-m', 'vlib.fuzz', target, res, '-runs=%d' % runs, '-seed=%d' % seed, '-max_len=%d' % max_len,
                    '-print_final_stats=0', '-verbosity=0', os.path.join(work, 'corpus')]
-            env = dict(os.environ, PYTHONHASHSEED='0')
+            env = dict(os.environ, PYTHONHASHSEED='0', VERIF_OPEN_FINDINGS=','.join(sorted(self.open_findings)))
             try:
                 subprocess.run(cmd, cwd=VERIF, env=env, stdout=subprocess.DEVNULL, stderr=subprocess.DEVNULL,
                                timeout=3600)
